@@ -227,6 +227,10 @@ func (c *tracingHTTP2Conn) newStreamLocked(frame *http2.MetaHeadersFrame) *http2
 	stream := &http2Stream{
 		builder:       builder,
 		requestTracer: dataTracer{isRequest: true, isStreamProtocol: isStream, decompressor: decompressor, builder: builder},
+		// The response tracer gets its builder right away (and its other
+		// properties once response headers arrive), so that a stream that is
+		// reset or cancelled before any response headers still gets completed.
+		responseTracer: dataTracer{builder: builder},
 	}
 	c.collector.newAttempt(builder.trace.TestName)
 	if c.streams == nil {
@@ -249,7 +253,7 @@ func (c *tracingHTTP2Conn) closeStreamLocked(streamID uint32, stream *http2Strea
 	if isRequest {
 		stream.requestTracer.emitUnfinished()
 		stream.builder.add(&RequestBodyEnd{Err: err})
-	} else if stream.responseTracer.builder != nil {
+	} else {
 		stream.requestTracer.emitUnfinished()
 		stream.responseTracer.emitUnfinished()
 		stream.builder.add(&ResponseBodyEnd{Err: err})
